@@ -207,7 +207,7 @@ def body(ctx, case):
 
 
 def sub_passthrough(ctx):
-    ctx.hyp(case_strategy(), lambda c: body(ctx, c), ctx.n(900, 24000))
+    ctx.hyp(case_strategy(), lambda c: body(ctx, c), ctx.n(2700, 24000))
 
 
 # ---- documented exceptions: JSON output re-renders non-JSON numerals; --ofmt re-renders floats only
@@ -318,7 +318,7 @@ def sub_exceptions(ctx):
         st.fixed_dictionaries({"vals": st.lists(safe, min_size=1, max_size=12), "mode": st.just("yaml")}),
         st.fixed_dictionaries({"vals": st.lists(safe, min_size=1, max_size=12), "mode": st.just("ofmt"),
                                "ofmt": st.sampled_from(["%.4f", "%.6lf", "%.3e", "%.8le", "%10.3f", "%.0f", "%08.3lf", "%.2lf"])}))
-    ctx.hyp(strat, lambda c: body_exceptions(ctx, c), ctx.n(240, 6000))
+    ctx.hyp(strat, lambda c: body_exceptions(ctx, c), ctx.n(600, 6000))
 
 
 SUBCHECKS = [
